@@ -202,6 +202,12 @@ func (p *jsonPathParser) setConnectedText(targetNode syntaxNode, postfix ...stri
 	targetNode.setConnectedText(targetNode.getText() + appendText)
 
 	if multiIdentifier, ok := targetNode.(*syntaxChildMultiIdentifier); ok {
+		// The inner identifiers stand at the same position of the path as the
+		// multiple-identifier itself; without the text their errors would be
+		// ranked as if they were the deepest ones.
+		for _, identifier := range multiIdentifier.identifiers {
+			identifier.setConnectedText(targetNode.getConnectedText())
+		}
 		if multiIdentifier.isAllWildcard {
 			multiIdentifier.unionQualifier.setConnectedText(targetNode.getConnectedText())
 		}
